@@ -14,10 +14,32 @@ import (
 // Slots are numbered -1 (under), 0..N-1 (bins), N (over).
 
 // HistWindow is the relative half-width of the ambiguity window around an
-// edge: relative to max(|min|,|max|) for a linear histogram (the rounding of
+// edge of a linear histogram: relative to max(|min|,|max|) (the rounding of
 // min+i*width and of delta*(x-min) is proportional to that scale, not to the
-// edge, which can be 0), relative to the edge for a logarithmic one.
+// edge, which can be 0). It is also the relative tolerance on a BinToValue
+// result of either kind. The window of a logarithmic edge is LogWindow.
 const HistWindow = 1e-12
+
+// LogWindow is the relative half-width of the ambiguity window around the
+// edge b^(i/m) of a logarithmic histogram ("within rounding distance").
+//
+// It is derived from the conditioning of the bin index t = m*log_b(x), not a
+// flat number. Any float64 evaluation of t - m/ln(b)*ln(x), m*ln(x)/ln(b),
+// the log2 / log10 variants (which split x into exponent and fraction and so
+// carry an absolute error of a few 2^-53 on top of the relative one),
+// ln(x)/ln(b^(1/m)) - is a handful of correctly rounded operations on
+// quantities of size |t|, so its error is at most c*2^-53*max(1,|t|) with c
+// around 6..10, i.e. c*2^-53*max(ln(b)/m, |ln x|) relative to x (dx/x =
+// ln(b)/m*dt; ln(b)/m <= ln 10). A comparison of x with float64 edges
+// (math.Pow, or the edge below times b^(1/m), i times over) is off by the
+// error of the edge: a few 2^-53, resp. about 1.5*i*2^-52 <= 9*2^-52*|ln x|
+// (ln(b)/m >= ln(2)/4). 32*2^-52*max(1,|ln edge|) covers every one of these
+// with a factor of at least 3.5 to spare: 7.1e-15 up to the edge e, 8.2e-13
+// at 1e50.
+func LogWindow(b, m, i int) float64 {
+	l := math.Abs(float64(i)) * math.Log(float64(b)) / float64(m)
+	return 32 * 0x1p-52 * math.Max(1, l)
+}
 
 // HistRef describes the edges of one histogram shape.
 type HistRef struct {
@@ -123,13 +145,12 @@ func LogEdge(b, m, i int) *big.Float {
 func NewLogRef(b, m, n int) *HistRef {
 	h := &HistRef{Log: true, N: n, B: b, M: m}
 	one := NF(1)
-	dn := Sub(one, NF(HistWindow))
-	up := Add(one, NF(HistWindow))
 	for i := 0; i <= n; i++ {
 		e := LogEdge(b, m, i)
+		wr := NF(LogWindow(b, m, i))
 		h.edge = append(h.edge, e)
-		h.lo = append(h.lo, Mul(e, dn))
-		h.hi = append(h.hi, Mul(e, up))
+		h.lo = append(h.lo, Mul(e, Sub(one, wr)))
+		h.hi = append(h.hi, Mul(e, Add(one, wr)))
 	}
 	h.Min = 1
 	h.Max = F64(h.edge[n])
@@ -459,6 +480,35 @@ func HistSelfTest() error {
 		if s != t.slot || a != t.alt {
 			return fmt.Errorf("log50 slot(%v)=(%d,%d) want (%d,%d)", t.x, s, a, t.slot, t.alt)
 		}
+	}
+	// conditioning-derived window of a logarithmic edge: one float64 step is
+	// inside, 1e-13 relative is outside at the low edges, inside at 1e50
+	for _, t := range []struct {
+		x         float64
+		slot, alt int
+	}{{math.Nextafter(1000, 0), 2, 3}, {math.Nextafter(1, 0), -1, 0}, {math.Nextafter(1, 2), 0, -1}, {1000 * (1 - 1e-13), 2, 2}, {1 - 1e-13, -1, -1}, {1000 * (1 + 1e-13), 3, 3},
+		{1e50 * (1 - 1e-13), 49, 50}, {1e50 * (1 - 2e-12), 49, 49}, {math.MaxFloat64, 50, 50}, {-math.MaxFloat64, -1, -1}} {
+		s, a, _ := big50.Slot(t.x)
+		if s != t.slot || a != t.alt {
+			return fmt.Errorf("log50 window slot(%v)=(%d,%d) want (%d,%d)", t.x, s, a, t.slot, t.alt)
+		}
+	}
+	if w := LogWindow(10, 1, 0); w != 32*0x1p-52 {
+		return fmt.Errorf("LogWindow(10,1,0)=%v", w)
+	}
+	// values and shapes at the top of the float64 range
+	hl := NewLinRef(-8e307, 8e307, 50)
+	for _, t := range []struct {
+		x    float64
+		slot int
+	}{{math.MaxFloat64, 50}, {-math.MaxFloat64, -1}, {0, 25}, {-1e300, 24}, {7.9e307, 49}, {-7.9e307, 0}, {1e308, 50}} {
+		s, a, _ := hl.Slot(t.x)
+		if s != t.slot || (a != t.slot && t.x != 0) {
+			return fmt.Errorf("huge lin slot(%v)=(%d,%d) want %d", t.x, s, a, t.slot)
+		}
+	}
+	if s, a, _ := NewLinRef(0, 1e-3, 10).Slot(1e305); s != 10 || a != 10 {
+		return fmt.Errorf("lin slot(1e305) = %d,%d", s, a)
 	}
 	nan, ivs, _ = QuantileRef(0, nil, 0, 0.3)
 	if !nan || len(ivs) != 0 {
